@@ -53,6 +53,18 @@ def inputs_for(name, mod, tier, rng):
             yield cls, x
     for cls, pc, x in gen.hostile_strings(nums[:2 if tier == 'quick' else 8], tier, rng):
         yield 'hostile:' + cls, x
+    # strings that start with the letters of the format's own label, bare and behind the printed label (raw candidates:
+    # whether they are accepted is for the library to say)
+    label = name.split('.')[-1].upper()
+    for v in nums[:3]:
+        o = C.outcome(mod.validate, v)
+        c = o[1] if o[0] == 'ok' and isinstance(o[1], str) else v
+        if not c[:1].isalpha():
+            continue
+        for j in range(2, len(label) + 1):
+            cand = label[:j] + c[j:]
+            for x in (cand, label + ' ' + cand, label + ': ' + cand, label + cand, label.lower() + ' ' + cand, label + ' ' + c, label + ':' + c):
+                yield 'label-start', x
 
 
 def work(shard, tier):
